@@ -29,6 +29,7 @@ fn esc(s: &str) -> String {
 
 const FLOP: [u8; 3] = [9, 26, 51]; // Qh 8d 2c
 const FLOP_MONOTONE: [u8; 3] = [28, 40, 48]; // 7s 4s 2s
+const FLOP_PAIRED_LOW: [u8; 3] = [49, 30, 50]; // 2h 7d 2d (the last unseen cards are 2s, 2c)
 
 /// drain an evaluator over parsed ranges, restricted to the first positions
 /// `positions`: 0 = the whole enumeration, k > 0 = the first k positions, 255 = the last rows
@@ -158,6 +159,12 @@ pub fn check(mode: Mode, s: &str) -> CheckResult {
         if n > 0 && n <= 60 {
             let r1 = r.clone();
             if let Some(res) = guarded!("FlopExhaustiveEvaluator over the parsed range on a monotone flop", drain_parsed_on(&FLOP_MONOTONE, &[r1], 0, mode)) {
+                res?;
+            }
+        }
+        if n > 0 && n <= 60 {
+            let r1 = r.clone();
+            if let Some(res) = guarded!("FlopExhaustiveEvaluator over the parsed range on a paired low flop", drain_parsed_on(&FLOP_PAIRED_LOW, &[r1], 0, mode)) {
                 res?;
             }
         }
@@ -471,7 +478,7 @@ pub fn run(ctx: &mut Ctx, mode: Mode) {
     let tier = ctx.tier;
     match mode {
         Mode::Total => {
-            ctx.rule = "strings: (1) every string of length 0-3 (thorough 0-4) over the 32-symbol alphabet ranks + 'shdco+-:.,01' + space + é (2 bytes) + € (3) + 😀 (4) + 'a','k','S' (wrong-case letters); (2) every string matching a token shape with arbitrary ranks - XY, XY+, XYk, XYk+, XY-ZW, XYk-ZWk', all 52x52 card-pair texts incl. both cards equal - without and with ':0.5', and the short shapes in every mix of upper- and lower-case letters; every single and double substitution of a notation character by a Unicode look-alike of its class (decimal digits of other scripts, full-width forms, Kelvin sign, long s, dashes, ...) in valid texts of every shape and weight form; every string made of a rank letter and two arbitrary printable ASCII characters (thorough: all 857,375 three-character printable strings); (3) proptest: valid notation with one or two characters inserted/replaced/deleted at any offset (multi-byte, NUL, combining, notation characters), comma lists mixing valid tokens with junk and the degenerate spans '22-AA','KAs+','2As+', arbitrary Unicode, weight literals, over-long inputs (up to 10^5 characters, 10^4 commas, 2,000 tokens). Oracle under catch_unwind: parse as Rank, Suit, Card, CardPair, HandRangeToken, HandRange returns; every Ok value is formatted, expanded, decomposed (rank_pairs, orphan_card_pairs) and drained through FlopExhaustiveEvaluator (alone on the first positions and to the very end - the whole enumeration for ranges of <= 24 combos, the last turn rows otherwise -, beside a fixed player, twice, at seats 0 and 2 around a disjoint player, and completely on a second, monotone flop for ranges of <= 60 combos). Non-trivial = accepted by some parser, or contains a multi-byte character, or has a token shape; distinct by string.".into();
+            ctx.rule = "strings: (1) every string of length 0-3 (thorough 0-4) over the 32-symbol alphabet ranks + 'shdco+-:.,01' + space + é (2 bytes) + € (3) + 😀 (4) + 'a','k','S' (wrong-case letters); (2) every string matching a token shape with arbitrary ranks - XY, XY+, XYk, XYk+, XY-ZW, XYk-ZWk', all 52x52 card-pair texts incl. both cards equal - without and with ':0.5', and the short shapes in every mix of upper- and lower-case letters; every single and double substitution of a notation character by a Unicode look-alike of its class (decimal digits of other scripts, full-width forms, Kelvin sign, long s, dashes, ...) in valid texts of every shape and weight form; every string made of a rank letter and two arbitrary printable ASCII characters (thorough: all 857,375 three-character printable strings); (3) proptest: valid notation with one or two characters inserted/replaced/deleted at any offset (multi-byte, NUL, combining, notation characters), comma lists mixing valid tokens with junk and the degenerate spans '22-AA','KAs+','2As+', arbitrary Unicode, weight literals, over-long inputs (up to 10^5 characters, 10^4 commas, 2,000 tokens). Oracle under catch_unwind: parse as Rank, Suit, Card, CardPair, HandRangeToken, HandRange returns; every Ok value is formatted, expanded, decomposed (rank_pairs, orphan_card_pairs) and drained through FlopExhaustiveEvaluator (alone on the first positions and to the very end - the whole enumeration for ranges of <= 24 combos, the last turn rows otherwise -, beside a fixed player, twice, at seats 0 and 2 around a disjoint player, and completely on a monotone and on a paired low flop for ranges of <= 60 combos). Non-trivial = accepted by some parser, or contains a multi-byte character, or has a token shape; distinct by string.".into();
         }
         Mode::Content => {
             ctx.rule = "same string generators as C09 plus every weight literal [01](.d{1,3})? on one token of each shape and generated literals (1.0..01, 0.99.., 40-digit fractions, exponents, NaN/inf). Oracle: every combo of every Ok card pair / token / range has two different cards and a weight w with 0 <= w <= 1; evaluator runs over the parsed ranges (alone, beside a fixed player, the range twice) yield only showdowns with probability in [0,1] and 5+2n pairwise distinct cards. Panics are C09's subject and skipped here. Non-trivial = the string parses to a card pair, token or non-empty range; distinct by string.".into();
